@@ -100,7 +100,8 @@ fn main() {
                     "KALL" | "C01" | "C02" | "C07" | "C14" | "C18" => kan::eval(&l2),
                     "C13" => c13::eval(&l2),
                     "C19" => c19::eval(&l2),
-                    "C04" | "LALL" | "C05" | "C06" | "C17" | "C08" | "C09" => lay::eval(&l2),
+                    "C04" => c04::eval(&l2),
+                    "LALL" | "C05" | "C06" | "C17" | "C08" | "C09" => lay::eval(&l2),
                     _ => "bad-prop".to_string(),
                 });
                 let res = match res {
